@@ -71,7 +71,7 @@ func (FramesFaults) Generate(seed uint64, tier string) engine.Plan {
 		}
 		p.Msgs = append(p.Msgs, m)
 	}
-	p.ErrKind = r.PickStr("", "", "shortwrite", "shortwrite", "eof", "closedpipe")
+	p.ErrKind = r.PickStr(errKinds...)
 	p.Policies = []simio.ChunkPolicy{genPolicy(r), genPolicy(r)}
 	p.Wraps = []string{wrapKinds[r.Intn(len(wrapKinds))], wrapKinds[r.Intn(len(wrapKinds))]}
 	if p.Family != "corrupt" && r.Chance(1, 60) {
@@ -462,15 +462,7 @@ func (FramesFaults) Execute(pl engine.Plan, c *engine.RunCtx) *engine.Failure {
 
 	case "wfail":
 		// ---- F2: writer-failure sweep
-		werr := error(simio.ErrInjected)
-		switch p.ErrKind {
-		case "shortwrite":
-			werr = io.ErrShortWrite
-		case "eof":
-			werr = io.EOF
-		case "closedpipe":
-			werr = io.ErrClosedPipe
-		}
+		werr := errOfKind(p.ErrKind)
 		if p.ErrKind != "" {
 			st.Inc("probe.C07.writer_fails_with_" + p.ErrKind)
 		}
@@ -510,7 +502,7 @@ func (FramesFaults) Execute(pl engine.Plan, c *engine.RunCtx) *engine.Failure {
 						if err == nil {
 							return engine.Failf("C07.wfail.swallowed", step, "%s: the writer failed after %d bytes but Marshal returned nil error (n=%d)", what, len(w.Got)-w.AcceptedPost, n)
 						}
-						if cause(err) != werr {
+						if cause(err) != werr && !chainHas(err, werr) {
 							return engine.Failf("C07.wfail.error", step, "%s: Marshal must return the writer's error (%v), got %v", what, werr, err)
 						}
 						if w.AcceptedPost != 0 {
